@@ -481,6 +481,42 @@ def rule_OW5(ctx, mod, E):
                   f'{k} is not rebuilt through {c}', ctx.where(mod, fd))
 
 
+def rule_OW6(ctx, mod, E):
+    """`_computed = True` claims that every source-frequency pair has been
+    computed: it may only be stored where that is established."""
+    n = 0
+    for name, fn in E.members.items():
+        for st in ast.walk(fn):
+            if isinstance(st, ast.Assign) and any(
+                    ast.unparse(t) == 'self._computed' for t in st.targets) \
+                    and ast.unparse(st.value) == 'True':
+                n += 1
+                gs = [(ast.unparse(t).replace(' ', ''), p)
+                      for t, p in au.guards_of(st, fn)]
+                ps = au.all_params(fn)
+                full = any(p and ('sourceisNone' in t and
+                                  'frequencyisNone' in t and 'or' not in t)
+                           for t, p in gs)
+                not_obs = any((t == 'observed' and not p) for t, p in gs)
+                ctx.check('C12.OW6.computed', f'Simulation.{name} '
+                          f'`{au.stext(st)}`', name == 'compute' and full
+                          and not_obs, f'`_computed = True` is stored under '
+                          f'the guards {gs}: the flag (which lets misfit '
+                          'skip the forward computation) must only be set '
+                          'when all sources and frequencies were computed',
+                          ctx.where(mod, st), sample={'guards': gs})
+    ctx.floor('C12.OW6.computed', 1)
+    # the full computation is selected by the same condition
+    cp = E.members['compute']
+    t = ast.unparse(cp).replace(' ', '')
+    ctx.check('C12.OW6.computed', 'compute: all pairs when no source/'
+              'frequency is given', 'self._compute([(source,frequency)])'
+              in t and 'ifnotsrcfreq[0][0]:' in ast.unparse(
+                  E.members['_compute']).replace(' ', ''),
+              'compute() does not compute all pairs for source=None',
+              ctx.where(mod, cp))
+
+
 def run(ctx):
     ctx.explanation = (
         'Effect analysis of class Simulation: item paths (data.synthetic/'
@@ -506,3 +542,4 @@ def run(ctx):
     rule_OW3(ctx, mod, E)
     rule_OW4(ctx, mod, E)
     rule_OW5(ctx, mod, E)
+    rule_OW6(ctx, mod, E)
